@@ -50,6 +50,21 @@ def ExactBack (dt : Option Dt) : Bool :=
   | none => true
   | some d => match d.conv with | .int | .boolean | .none | .hex => true | _ => false
 
+/-- whole-minute utcoffset (microseconds), strictly inside ±24 h -/
+def TzOk (tz : Option Int) : Prop :=
+  match tz with
+  | none => True
+  | some off => off % 60000000 = 0 ∧ -86400000000 < off ∧ off < 86400000000
+
+/-- utcoffsets XSD can write: whole minutes within ±14:00 -/
+def XsdTz (tz : Option Int) : Prop :=
+  match tz with
+  | none => True
+  | some off => off % 60000000 = 0 ∧ -50400000000 ≤ off ∧ off ≤ 50400000000
+
+/-- field ranges of a Python `time` -/
+def ValidTime (h mi s us : Nat) : Prop := h < 24 ∧ mi < 60 ∧ s < 60 ∧ us < 1000000
+
 def PyVal.isStr : PyVal → Bool | .str _ => true | _ => false
 def PyVal.isBytes : PyVal → Bool | .bytes _ => true | _ => false
 
